@@ -140,6 +140,24 @@ SPECS = {
         40000,
         800000,
     ),
+    "C07": _pl(
+        "Composite pools conserve demand and aggregate their children faithfully",
+        "one world per seed: UniformComposite or WeightedComposite (all three weights) with 0-8 recording children (all-zero weights, single non-zero, equal, tiny/huge magnitudes in [1e-100, 1e100]), "
+        "1-40 operations (demand writes, child state changes, children appended / removed, reads); conservation, proportionality, share bounds, exact read-back, supply sum, convexity and documented fallbacks "
+        "after every event (relative tolerance 1e-9 where the statement allows rounding); non-trivial = a demand write with at least one child; "
+        "distinct = distinct (composite kind, #children bucket, weight class, op kinds used, length bucket)",
+        40000,
+        800000,
+    ),
+    "C15": _pl(
+        "FactoryPool spawns and releases just enough children",
+        "one world per seed: a FactoryPool with 0-6 initial children and a counting factory, driven through its real run() loop for 1-40 adjustments under a virtual clock, with an environment script between "
+        "adjustments (demand writes, child supply / fitness changes, children disabling themselves, dropping the last reference to a released child, gc); dense sampling of short histories over small value "
+        "alphabets plus random long ones; a snapshot after every adjustment is judged against the population before it; non-trivial = at least one adjustment spawned or shrank; "
+        "distinct = distinct (#initial, #adjustments bucket, op kinds, #grow / #shrink adjustments, factory demands)",
+        30000,
+        600000,
+    ),
     "C08": _pl(
         "Controllers move demand only in the documented direction and amount",
         "one world per seed: one controller (Linear, RelativeSupply, Stepwise via @stepwise/add/.s/direct, DemandSwitch over shipped and instrumented slave controllers) over a recording pool, "
